@@ -60,7 +60,12 @@ Inductive qop :=
 | VecPush (i : nat)            (* vec.push_back(std::move(pool[i])) — modelled on the reallocating path *)
 | VecGrow                      (* vec.reserve(capacity()+1): reallocation *)
 | VecClear                     (* vec.clear() *)
-| VecTake (i k : nat).         (* pool[i] = std::move(vec[k]) *)
+| VecTake (i k : nat)          (* pool[i] = std::move(vec[k]) *)
+| AssignNull (i : nat)         (* pool[i] = nullptr     (the re-exported unique_ptr::operator=(nullptr_t): same as reset()) *)
+| VecAssignNull (k : nat)      (* vec[k] = nullptr *)
+| Swap (i j : nat)             (* std::swap(pool[i], pool[j]): move-construct a temporary, two move assignments *)
+| DefCtor (i : nat)            (* new (&pool[i]) quaint_ptr()   slot i Gone: an empty pointer *)
+| VecPop.                      (* vec.pop_back() *)
 
 Definition is_live (s : option slot) : option ptr := match s with Some (Live p) => Some p | _ => None end.
 
@@ -72,6 +77,11 @@ Definition q_applicable (st : qstate) (o : qop) : bool :=
   | Reset i | Drop i | VecPush i => match is_live (nth_error (pool st) i) with Some _ => true | None => false end
   | VecGrow | VecClear => true
   | VecTake i k => match is_live (nth_error (pool st) i), nth_error (vec st) k with Some _, Some _ => true | _, _ => false end
+  | AssignNull i => match is_live (nth_error (pool st) i) with Some _ => true | None => false end
+  | VecAssignNull k => match nth_error (vec st) k with Some _ => true | None => false end
+  | Swap i j => match is_live (nth_error (pool st) i), is_live (nth_error (pool st) j) with Some _, Some _ => true | _, _ => false end
+  | DefCtor i => match nth_error (pool st) i with Some Gone => true | _ => false end
+  | VecPop => match vec st with [] => false | _ => true end
   end.
 
 Definition q_step (st : qstate) (o : qop) : qstate :=
@@ -128,6 +138,39 @@ Definition q_step (st : qstate) (o : qop) : qstate :=
           mkQ (release (heap st) pi) (setn (pool st) i (Live n)) (setn (vec st) k src)
       | _, _ => st
       end
+  | AssignNull i =>
+      (* unique_ptr::operator=(nullptr_t): reset() *)
+      match is_live (nth_error (pool st) i) with
+      | Some p => mkQ (release (heap st) p) (setn (pool st) i (Live None)) (vec st)
+      | None => st
+      end
+  | VecAssignNull k =>
+      match nth_error (vec st) k with
+      | Some p => mkQ (release (heap st) p) (pool st) (setn (vec st) k None)
+      | None => st
+      end
+  | Swap i j =>
+      match is_live (nth_error (pool st) i), is_live (nth_error (pool st) j) with
+      | Some pi, Some pj =>
+          (* tmp(std::move(a)): a null;  a = std::move(b): releases a's (null) pointee, b null;  b = std::move(tmp): releases
+             b's (null) pointee; ~tmp (null).  On itself the middle step is a self move assignment.  Nothing is destroyed. *)
+          let '(tmp, a0) := move_out pi in
+          let h1 := release (heap st) a0 in
+          let h2 := release h1 None in
+          let h3 := release h2 None in
+          mkQ h3 (setn (setn (pool st) i (Live pj)) j (Live tmp)) (vec st)
+      | _, _ => st
+      end
+  | DefCtor i =>
+      match nth_error (pool st) i with
+      | Some Gone => mkQ (heap st) (setn (pool st) i (Live None)) (vec st)
+      | _ => st
+      end
+  | VecPop =>
+      match rev (vec st) with
+      | p :: r => mkQ (release (heap st) p) (pool st) (rev r)
+      | [] => st
+      end
   end.
 
 Definition q_run (st : qstate) (ops : list qop) : qstate := fold_left q_step ops st.
@@ -176,8 +219,15 @@ Definition must_be_empty (o : qop) : option nat :=
   | MoveAssign i j => if Nat.eqb i j then None else Some j
   | Reset i => Some i
   | VecPush i => Some i
+  | AssignNull i => Some i
   | _ => None
   end.
+
+(* the vector element an operation must leave empty: moved out of, or assigned nullptr *)
+Definition vec_must_be_null (o : qop) : option nat :=
+  match o with VecTake _ k => Some k | VecAssignNull k => Some k | _ => None end.
+Definition vec_is_null (st : qstate) (k : nat) : bool :=
+  match nth_error (vec st) k with Some None => true | _ => false end.
 
 Definition slot_is_null (st : qstate) (i : nat) : bool :=
   match nth_error (pool st) i with Some (Live None) => true | _ => false end.
